@@ -143,6 +143,9 @@ def ev(e, params, x):
             if name == 'recip': return fdiv(1.0, args[0])
             if name == 'floor': return math.floor(args[0])
             if name == 'ceil': return math.ceil(args[0])
+            if name == 'trunc': return float(math.trunc(args[0]))
+            if name == 'fract': return args[0] - math.trunc(args[0])
+            if name == 'round': return float(math.floor(abs(args[0]) + 0.5)) * (1.0 if args[0] >= 0 else -1.0)
             if name == 'max': return max(args)
             if name == 'min': return min(args)
             if name == 'gamma': return fgamma(args[0])
